@@ -84,6 +84,86 @@ Proof.
   apply nth_error_Some. congruence.
 Qed.
 
+(* ---- removal of a set without items ---- *)
+Lemma dict_remove_in d n x : In x (dict_remove d n) -> In x d.
+Proof.
+  induction d as [|[n1 v1] d IH]; cbn [dict_remove]; [auto|]. destruct (oname_eqb n n1); intros H; [right; exact H|].
+  destruct H as [H|H]; [left; exact H | right; exact (IH H)].
+Qed.
+
+Lemma dict_remove_nodup d n : NoDup (map fst d) -> NoDup (map fst (dict_remove d n)).
+Proof.
+  induction d as [|[n1 v1] d IH]; cbn [dict_remove map fst]; intros H; [exact H|]. inversion H as [|? ? Hn Hd]; subst.
+  destruct (oname_eqb n n1); [exact Hd|]. cbn [map fst]. constructor; [|apply IH; exact Hd].
+  intros Hin. apply Hn. apply in_map_iff in Hin. destruct Hin as (x & E & Hx). apply in_map_iff. exists x. split; [exact E | eapply dict_remove_in; exact Hx].
+Qed.
+
+Lemma reg_remove_keys r k n x : In x (map fst (reg_remove r k n)) -> In x (map fst r).
+Proof.
+  induction r as [|[k' d] r IH]; cbn [reg_remove map fst]; [auto|]. destruct (Nat.eqb k k').
+  - destruct (dict_remove d n); cbn [map fst]; [intros H; right; exact H | intros H; exact H].
+  - cbn [map fst]. intros [H|H]; [left; exact H | right; exact (IH H)].
+Qed.
+
+Lemma regk_remove keys k n : forall r, regk_ok keys r -> regk_ok keys (reg_remove r k n).
+Proof.
+  induction r as [|[k' d] r IH]; intros [Hn Hall]; [split; assumption|].
+  inversion Hn as [|? ? Hk Hn']; subst. apply Forall_cons_iff in Hall. destruct Hall as [[Hd1 Hd2] Hall]. cbn [fst snd] in *.
+  cbn [reg_remove]. destruct (Nat.eqb k k').
+  - assert (Hd' : dictk_ok keys k' (dict_remove d n)).
+    { split; [apply dict_remove_nodup; exact Hd1|]. apply Forall_forall. intros x Hx. rewrite Forall_forall in Hd2. apply Hd2. eapply dict_remove_in. exact Hx. }
+    destruct (dict_remove d n) as [|e d'] eqn:Ed; [split; assumption|].
+    split; [cbn [map fst]; constructor; assumption | constructor; [exact Hd' | exact Hall]].
+  - destruct (IH (conj Hn' Hall)) as [Hn2 Hall2]. split.
+    + cbn [map fst]. constructor; [|exact Hn2]. intros Hin. apply Hk. eapply reg_remove_keys. exact Hin.
+    + constructor; [split; assumption | exact Hall2].
+Qed.
+
+Lemma regk_forget st keys r k n : regk_ok keys r -> regk_ok keys (forget_empty st r k n).
+Proof.
+  intros Hr. unfold forget_empty. destruct (reg_find r k n) as [sid|]; [|exact Hr].
+  destruct (set_empty st sid); [apply regk_remove; exact Hr | exact Hr].
+Qed.
+
+(* ---- a set type without non-empty sets is moved to the end ---- *)
+Lemma drop_class_keys r k x : In x (map fst (reg_drop_class r k)) -> In x (map fst r) /\ x <> k.
+Proof.
+  unfold reg_drop_class. intros H. apply in_map_iff in H. destruct H as ([k' d] & <- & Hin). apply filter_In in Hin. destruct Hin as [Hin Hne].
+  cbn [fst] in *. split; [apply in_map_iff; exists (k', d); auto|]. destruct (Nat.eqb_spec k k'); [discriminate | congruence].
+Qed.
+
+Lemma drop_class_nodup r k : NoDup (map fst r) -> NoDup (map fst (reg_drop_class r k)).
+Proof.
+  unfold reg_drop_class. induction r as [|[k' d] r IH]; intros H; [constructor|]. inversion H as [|? ? Hn Hr]; subst. cbn [filter fst].
+  destruct (negb (Nat.eqb k k')); [|apply IH; exact Hr]. cbn [map fst]. constructor; [|apply IH; exact Hr].
+  intros Hin. apply Hn. apply (drop_class_keys r k k' Hin).
+Qed.
+
+Lemma lookup_drop_class r k d : reg_lookup (reg_drop_class r k ++ [(k, d)]) k = d.
+Proof.
+  unfold reg_drop_class. induction r as [|[k' d'] r IH]; cbn [filter app reg_lookup fst]; [rewrite Nat.eqb_refl; reflexivity|].
+  destruct (Nat.eqb_spec k k') as [->|Hne]; cbn [negb]; [exact IH|]. cbn [app reg_lookup].
+  destruct (Nat.eqb_spec k k'); [contradiction | exact IH].
+Qed.
+
+Lemma regk_reposition st keys r k : regk_ok keys r -> regk_ok keys (reposition_class st r k).
+Proof.
+  intros [Hn Hall]. unfold reposition_class. destruct (reg_lookup r k) as [|e d] eqn:El; [split; assumption|].
+  destruct (class_all_empty st (e :: d)); [|split; assumption].
+  destruct (reg_lookup_spec r k Hn) as [Hin | [He _]]; [|congruence]. rewrite El in Hin. split.
+  - rewrite map_app. cbn [map fst]. apply NoDup_app_snoc; [apply drop_class_nodup; exact Hn|].
+    intros H. apply drop_class_keys in H. destruct H as [_ H]. congruence.
+  - apply Forall_app. split.
+    + unfold reg_drop_class. apply Forall_forall. intros x Hx. apply filter_In in Hx. rewrite Forall_forall in Hall. apply Hall. apply Hx.
+    + constructor; [|constructor]. rewrite Forall_forall in Hall. exact (Hall _ Hin).
+Qed.
+
+Lemma reg_find_reposition st r k n : reg_find (reposition_class st r k) k n = reg_find r k n.
+Proof.
+  unfold reposition_class, reg_find. destruct (reg_lookup r k) as [|e d] eqn:El; [rewrite El; reflexivity|].
+  destruct (class_all_empty st (e :: d)); [|rewrite El; reflexivity]. rewrite lookup_drop_class. reflexivity.
+Qed.
+
 (* ---- states with the same set keys ---- *)
 Lemma inv_reg_same st st' : skeys st' = skeys st -> b_phys st' = b_phys st -> b_lfs st' = b_lfs st -> Inv_reg st -> Inv_reg st'.
 Proof. unfold Inv_reg. intros -> -> ->. auto. Qed.
@@ -120,11 +200,13 @@ Proof.
     + rewrite Hk. cbn [b_lfs]. eapply Forall_impl; [|exact Hl]. intros f. apply regk_ext.
 Qed.
 
-Lemma try_add_reg keys f ty sn sid :
-  regk_ok keys (l_reg f) -> nth_error keys sid = Some (ty, norm_name sn) -> regk_ok keys (l_reg (try_add_set f ty sn sid)).
+Lemma try_add_reg keys s0 f ty sn sid :
+  regk_ok keys (l_reg f) -> nth_error keys sid = Some (ty, norm_name sn) -> regk_ok keys (l_reg (try_add_set s0 f ty sn sid)).
 Proof.
-  intros Hf He. unfold try_add_set. cbv zeta. change (match sn with Some [] => None | _ => sn end) with (norm_name sn). destruct (reg_find (l_reg f) ty (norm_name sn)) eqn:Ef; [exact Hf|].
-  cbn [l_reg]. apply regk_insert; assumption.
+  intros Hf He. unfold try_add_set. cbv zeta. change (match sn with Some [] => None | _ => sn end) with (norm_name sn).
+  pose proof (regk_forget s0 _ _ ty (norm_name sn) Hf) as Hf'.
+  destruct (reg_find (forget_empty s0 (l_reg f) ty (norm_name sn)) ty (norm_name sn)) eqn:Ef; [exact Hf|].
+  cbn [l_reg]. apply regk_insert; [apply regk_reposition; exact Hf' | rewrite reg_find_reposition; exact Ef | exact He].
 Qed.
 
 Lemma register_keys st sid it : skeys (register st sid it) = skeys st.
@@ -142,7 +224,7 @@ Proof.
   unfold add_common. destruct (lf_at st l) as [f|] eqn:Hf; [|intros H; inv H; auto].
   destruct (get_or_make_set st ty sn) as [st1 sid] eqn:Hg. intros H Hi.
   destruct (gms_reg _ _ _ _ _ Hg Hi) as (Hi1 & He & Hlfs & Hext).
-  assert (Hi2 : Inv_reg (set_lf st1 l (try_add_set f ty sn sid))).
+  assert (Hi2 : Inv_reg (set_lf st1 l (try_add_set st1 f ty sn sid))).
   { apply set_lf_reg; [exact Hi1|]. apply try_add_reg; [|exact He]. eapply regk_keys_ext; [exact Hext|]. eapply lf_at_reg; eassumption. }
   destruct name; try (inv H; exact Hi2).
   destruct (hc && negb (hc_string s)); [inv H; exact Hi2|].
@@ -167,7 +249,7 @@ Proof.
     unfold add_origin in E. destruct (lf_at st l) as [f|] eqn:Hf; [|inv E; exact Hi].
     destruct (get_or_make_set st T_ORIGIN sn) as [st1 sid] eqn:Hg.
     destruct (gms_reg _ _ _ _ _ Hg Hi) as (Hi0 & He & Hlfs & Hext).
-    assert (Hi1 : Inv_reg (set_lf st1 l (try_add_set f T_ORIGIN sn sid))).
+    assert (Hi1 : Inv_reg (set_lf st1 l (try_add_set st1 f T_ORIGIN sn sid))).
     { apply set_lf_reg; [exact Hi0|]. apply try_add_reg; [|exact He]. eapply regk_keys_ext; [exact Hext|]. eapply lf_at_reg; eassumption. }
     match type of E with context [match ?c with Some _ => _ | None => _ end = _] => destruct c end; [inv E; exact Hi1|].
     match type of E with context [add_common ?a ?b ?c ?d ?e0 ?f0 ?g ?h ?i ?j ?k] =>
